@@ -9,7 +9,7 @@ import (
 func init() { register("C01", propC01) }
 
 func propC01(c *Ctx) {
-	c.Explanation = "Decides structural necessary conditions of the byte-stream property for all inputs and schedules: (R1) the segment invariant 'first byte of data has sequence number sequenceNumber' - every front trim of a segment's data is paired, under the same guards and with the same amount, with an advance of that segment's sequence number (receiver trim of already-received bytes, sender split at window/MSS boundaries, sender partial-ACK trim); (R2) ownership for all schedules: every access to sender/receiver state happens with endpoint.workMu held (must-lockset with held-at-entry fixpoint over the call graph; frozen entry assumptions for the worker goroutines; three reviewed cut edges/exceptions), and the queues shared with the application (rcvList/rcvBufUsed/..., sndQueue/sndBufUsed/..., segmentQueue) are touched only under their mutexes; (R3) hand-off discipline: the complete reviewed site tables of receiver.consumeSegment, receiver.handleRcvdSegment, endpoint.readyToRead, readLocked and the sender's split/advance sites - data reaches the reader only through readyToRead(PushBack) from consumeSegment, exactly when the segment contains rcvNxt, rcvNxt advances by exactly the bytes handed over, parked segments are consumed with their own sequence number and length, the reader takes the front segment view by view; (R4) no raw ordering of sequence numbers in package tcp. (R5) link typestate: no function reads the list links of a segment after removing it from its list unless segmentList.Remove preserves the removed element's links, so cursor fix-ups such as writeNext = seg.Next() yield the true successor; the sender's sequence variables start at iss+1 (newSender rows of R3). (R6) a segment's sequence-space length is payload + SYN + FIN, all four flag combinations on their own paths (shared with C03/H8, C02/W7); R3 also tables segment.clone (sequence number, flags, own view list), segment.parse (fields from the header getters, payload after the data offset) and the receiver's first expected byte irs+1. NOT decided: that acceptance, trimming amounts, heap order and retransmission produce the right bytes over all fault schedules (numerical relations between runtime values), nothing about the peer or the wire."
+	c.Explanation = "Decides structural necessary conditions of the byte-stream property for all inputs and schedules: (R1) the segment invariant 'first byte of data has sequence number sequenceNumber' - every front trim of a segment's data is paired, under the same guards and with the same amount, with an advance of that segment's sequence number (receiver trim of already-received bytes, sender split at window/MSS boundaries, sender partial-ACK trim); (R2) ownership for all schedules: every access to sender/receiver state happens with endpoint.workMu held (must-lockset with held-at-entry fixpoint over the call graph; frozen entry assumptions for the worker goroutines; three reviewed cut edges/exceptions), and the queues shared with the application (rcvList/rcvBufUsed/..., sndQueue/sndBufUsed/..., segmentQueue) are touched only under their mutexes; (R3) hand-off discipline: the complete reviewed site tables of receiver.consumeSegment, receiver.handleRcvdSegment, endpoint.readyToRead, readLocked and the sender's split/advance sites - data reaches the reader only through readyToRead(PushBack) from consumeSegment, exactly when the segment contains rcvNxt, rcvNxt advances by exactly the bytes handed over, parked segments are consumed with their own sequence number and length, the reader takes the front segment view by view; (R4) no raw ordering of sequence numbers in package tcp. (R5) link typestate: no function reads the list links of a segment after removing it from its list unless segmentList.Remove preserves the removed element's links, so cursor fix-ups such as writeNext = seg.Next() yield the true successor; the sender's sequence variables start at iss+1 (newSender rows of R3). (R6) a segment's sequence-space length is payload + SYN + FIN, all four flag combinations on their own paths (shared with C03/H8, C02/W7); R3 also tables segment.clone (sequence number, flags, own view list), segment.parse (fields from the header getters, payload after the data offset) and the receiver's first expected byte irs+1. (R7) the out-of-order heap's container/heap implementation and the segment reference counter are exactly the reviewed ones. NOT decided: that acceptance, trimming amounts, heap order and retransmission produce the right bytes over all fault schedules (numerical relations between runtime values), nothing about the peer or the wire."
 	c.Assumptions = []string{
 		"newEndpoint returns with workMu locked; protocolMainLoop/protocolListenLoop own it from their first instruction (frozen entry assumption, rule R2-entry)",
 		"field loads of sender/receiver state are stable while workMu is held",
@@ -159,6 +159,19 @@ func propC01(c *Ctx) {
 	// ---- R5
 	r5 := c.Rule("R5", "typestate", "a segment's list links are not read after its removal unless Remove preserves them (cursor fix-ups such as writeNext = seg.Next())", 3)
 	c.LinkTypestate(r5, "tcp.segmentList", "tcp.segmentEntry")
+
+	// ---- R7
+	r7 := c.Rule("R7", "K9 site tables (closed)", "the out-of-order heap is a heap over sequenceNumber.LessThan: Len/Less/Swap/Push/Pop; segment reference counting", 9)
+	c.HeapImpl(r7, "tcp.segmentHeap.", "(*tcp.segmentHeap).", "seqnum.Value.LessThan($0[$1].sequenceNumber, $0[$2].sequenceNumber)")
+	if fn := c.Fn(r7, "(*tcp.segment).decRef"); fn != nil {
+		c.CheckSites(r7, fn, []SiteSpec{
+			{Kind: "call", Target: "sync/atomic.AddInt32", Args: []string{"&$0.refCnt", "-1"}, Guards: []string{}, Exact: true, N: 1, Why: "one reference is given up"},
+			{Kind: "call", Target: "(*stack.Route).Release", Args: []string{"&$0.route"}, Guards: []string{"(0 == sync/atomic.AddInt32(&$0.refCnt, -1))"}, Exact: true, N: 1, Why: "the route is released exactly when the last reference goes"},
+		})
+	}
+	if fn := c.Fn(r7, "(*tcp.segment).incRef"); fn != nil {
+		c.CheckSites(r7, fn, []SiteSpec{{Kind: "call", Target: "sync/atomic.AddInt32", Args: []string{"&$0.refCnt", "1"}, Guards: []string{}, Exact: true, N: 1, Why: "one more reference"}})
+	}
 
 	// ---- R6
 	r6 := c.Rule("R6", "K9 path table (shared with C03/H8, C02/W7)", "a segment's sequence-space length = payload + SYN + FIN: what rcvNxt and sndUna advance by", 5)
